@@ -6,6 +6,7 @@
 #include <SQuIDS/const.h>
 #include <memory>
 #include <sstream>
+#include <algorithm>
 using namespace life;
 
 namespace {
@@ -183,6 +184,20 @@ void run_history(vh::Ctx& c, vh::Rng& r, const std::string& prop, bool extended,
       int op = r.pick(extended ? 22 : 14);
       unsigned d = dims[r.pick(3)];
       std::ostringstream os;
+      if (r.coin(0.03)) {
+        // burst: more temporaries of one dimension than the per-dimension cache can hold (32), so that
+        // releases overflow the cache and take the direct delete[] path, then allocations drain it again
+        int n = 33 + r.pick(12);
+        os << " burst(" << n << "x dim" << d << ")"; w.hist += os.str(); c.desc(w.hist);
+        {
+          std::vector<std::unique_ptr<SU_vector>> tmp;
+          for (int k = 0; k < n; k++) tmp.emplace_back(r.coin(0.7) ? new SU_vector(d) : new SU_vector(rand_vec(r, d)));
+          if (r.coin()) std::reverse(tmp.begin(), tmp.end());
+        }
+        { std::vector<SU_vector> again; for (int k = 0; k < 34; k++) again.emplace_back(d); }
+        w.check_all("burst"); c.count("op.cache_overflow_burst");
+        continue;
+      }
       if (w.followup >= 0) {
         // the follow-up the property names first: assign to a moved-from / consumed vector, with
         // a value of the size it used to have (which is what reuses stale storage if any is left)
